@@ -4,9 +4,8 @@
    NOTE: the relation of C18_canon_unique is value_eqs (no list upgrade), not Equal's value_eq:
    a primitive list and the equivalent struct list are value_eq but have different canonical forms.
    [T2] (the Go-faithful model computes canon of the denoted value) is proved by a heap-level
-   induction for every value without capabilities, bit lists and struct lists (cdom), any depth:
-   C18_canon_m_correct_cdom and its three consequences; bit lists and struct lists are open and
-   covered by the run. *)
+   induction for every value: C18_canon_m_correct, its three consequences, and the capability
+   case (C18_canon_m_cap_error). *)
 From CV Require Import Value.ValueEq Value.CanonSpec Value.CanonProofs Value.CanonProofs2 Value.CanonProofs3
                        Value.EqualM Value.CanonM Value.EqualProofs Value.CanonMProofs Value.CanonMStruct Value.CanonMWords Value.CanonMData Value.CanonMHeap Value.CanonMLoop Value.CanonMInd Value.CanonMTop Value.CanonMListC Value.Den.
 From CV Require Import Core.ReaderFacts Core.SafetyProofs Core.ArithFacts.
@@ -149,23 +148,23 @@ Theorem C18_placed_list_word : forall off lt n, 0 <= lt < 8 -> 0 <= n < 53687091
 Proof. exact placed_list_word. Qed.
 Print Assumptions C18_placed_list_word.
 
-(* [T2] on the proved domain.  cdom v: v contains no capability, no bit list and no struct list
-   (structs, void / 1,2,4,8-byte / pointer lists, nested to any depth).  Whenever Canonicalize
-   (repaired, strict reader, well-formed source) returns bytes for such a value, they are the
-   specification's canonical form of the value the struct denotes. *)
-Theorem C18_canon_m_correct_cdom : forall fuel c fx m rl s v bs rl',
+(* [T2]: whenever Canonicalize (repaired, strict reader, well-formed source struct) returns bytes,
+   they are the specification's canonical form of the value the struct denotes -- every value:
+   structs, void / bit / primitive / pointer / struct lists, any depth and layout. *)
+Theorem C18_canon_m_correct : forall fuel c fx m rl s v bs rl',
   all_cfixed fx -> cfg_strict c = true -> msg_ok m -> wf_ptr m s ->
   (p_valid s = true -> p_kind s = KStruct /\ DataSize (p_size s) mod 8 = 0) ->
-  den true m 0 [] s v -> cdom v = true ->
+  den true m 0 [] s v ->
   canonicalize c fx fuel m rl s = (KOk bs, rl') -> canon v = Some bs.
-Proof. exact canon_m_correct_cdom. Qed.
-Print Assumptions C18_canon_m_correct_cdom.
+Proof. exact canon_m_correct. Qed.
+Print Assumptions C18_canon_m_correct.
 
-(* all outcomes on the proved domain: bytes = canonical form, never a panic *)
-Theorem C18_canon_m_correct_cdom_full : forall fuel c fx m rl s v,
+(* all outcomes: bytes = canonical form, never a panic; errors (limits, sizes, capabilities) and
+   fuel exhaustion are not constrained *)
+Theorem C18_canon_m_correct_full : forall fuel c fx m rl s v,
   all_cfixed fx -> cfg_strict c = true -> msg_ok m -> wf_ptr m s ->
   (p_valid s = true -> p_kind s = KStruct /\ DataSize (p_size s) mod 8 = 0) ->
-  den true m 0 [] s v -> cdom v = true -> 0 <= rl ->
+  den true m 0 [] s v -> 0 <= rl ->
   forall r rl', canonicalize c fx fuel m rl s = (r, rl') ->
   match r with
   | KOk bs => canon v = Some bs
@@ -173,8 +172,26 @@ Theorem C18_canon_m_correct_cdom_full : forall fuel c fx m rl s v,
   | KPanic => False
   | KFuel => True
   end.
-Proof. exact canon_m_correct_cdom_full. Qed.
-Print Assumptions C18_canon_m_correct_cdom_full.
+Proof. exact canon_m_correct_full. Qed.
+Print Assumptions C18_canon_m_correct_full.
+
+(* capabilities: no canonical form (C18_canon_cap_none) and Canonicalize never returns bytes:
+   the error outcome (or fuel exhaustion, the excluded outcome) *)
+Theorem C18_canon_m_cap_error : forall fuel c fx m rl s v,
+  all_cfixed fx -> cfg_strict c = true -> msg_ok m -> wf_ptr m s ->
+  (p_valid s = true -> p_kind s = KStruct /\ DataSize (p_size s) mod 8 = 0) ->
+  den true m 0 [] s v -> 0 <= rl -> has_cap (norm v) = true ->
+  forall r rl', canonicalize c fx fuel m rl s = (r, rl') -> r = KErr \/ r = KFuel.
+Proof. exact canon_m_cap_error. Qed.
+Print Assumptions C18_canon_m_cap_error.
+
+Theorem C18_canon_m_bytes_nocap : forall fuel c fx m rl s v bs rl',
+  all_cfixed fx -> cfg_strict c = true -> msg_ok m -> wf_ptr m s ->
+  (p_valid s = true -> p_kind s = KStruct /\ DataSize (p_size s) mod 8 = 0) ->
+  den true m 0 [] s v ->
+  canonicalize c fx fuel m rl s = (KOk bs, rl') -> has_cap (norm v) = false.
+Proof. exact canon_m_bytes_nocap. Qed.
+Print Assumptions C18_canon_m_bytes_nocap.
 
 (* the invariant behind it, for every fuel: canonicalPtr / fillCanonicalStruct / canonicalList
    append the canonical words of the object at the end of the single destination segment *)
@@ -183,18 +200,25 @@ Theorem C18_Q_all : forall c fx m, cfg_strict c = true -> all_cfixed fx -> msg_o
 Proof. exact Q_all. Qed.
 Print Assumptions C18_Q_all.
 
-(* non-vacuity: a concrete message (struct with a byte list and a pointer list) satisfies every
-   hypothesis, Canonicalize returns bytes and they equal canon of the denoted value *)
-Theorem C18_canon_m_cdom_nonvacuous :
+(* non-vacuity: a concrete message (struct with a byte list, a pointer list, a bit list with dirty
+   padding and a struct list) satisfies every hypothesis, Canonicalize returns bytes and they equal
+   canon of the denoted value; and a struct holding a capability gives the error outcome *)
+Theorem C18_canon_m_nonvacuous :
   all_cfixed repaired /\ cfg_strict cfg0 = true /\ p_valid root_ex = true /\ p_kind root_ex = KStruct /\
   DataSize (p_size root_ex) mod 8 = 0 /\
-  exists v bs rl', den true msg_ex 0 [] root_ex v /\ cdom v = true /\ v <> VNull /\
+  exists v bs rl', den true msg_ex 0 [] root_ex v /\ v <> VNull /\
                    canonicalize cfg0 repaired 20 msg_ex 1000000 root_ex = (KOk bs, rl') /\ canon v = Some bs.
-Proof. exact canon_m_cdom_nonvacuous. Qed.
-Print Assumptions C18_canon_m_cdom_nonvacuous.
+Proof. exact canon_m_nonvacuous. Qed.
+Print Assumptions C18_canon_m_nonvacuous.
 
-(* towards the struct-list case (open): the element size canonicalList computes for a struct list is
-   the specification's -- the maxima of the elements' truncated section sizes *)
+Theorem C18_canon_m_cap_nonvacuous :
+  exists v, den true msg_cap 0 [] root_cap v /\ has_cap (norm v) = true /\
+            fst (canonicalize cfg0 repaired 20 msg_cap 1000000 root_cap) = KErr.
+Proof. exact canon_m_cap_nonvacuous. Qed.
+Print Assumptions C18_canon_m_cap_nonvacuous.
+
+(* the element size canonicalList computes for a struct list is the specification's -- the maxima of
+   the elements' truncated section sizes *)
 Theorem C18_elem_size_list : forall m, msg_ok m -> forall p vs,
   wf_ptr m p -> p_valid p = true -> p_kind p = KList -> p_bit p = false ->
   DataSize (p_size p) mod 8 = 0 -> zlen vs = p_len p ->
@@ -204,12 +228,12 @@ Theorem C18_elem_size_list : forall m, msg_ok m -> forall p vs,
 Proof. exact elem_size_list. Qed.
 Print Assumptions C18_elem_size_list.
 
-(* the three claims about Canonicalize itself, unconditional on the proved domain *)
+(* the three claims about Canonicalize itself, unconditional *)
 Theorem C18_canon_m_layout_independent : forall fuel c fx m1 rl1 s1 v1 m2 rl2 s2 v2 bs1 bs2 r1 r2,
   all_cfixed fx -> cfg_strict c = true -> msg_ok m1 -> msg_ok m2 -> wf_ptr m1 s1 -> wf_ptr m2 s2 ->
   (p_valid s1 = true -> p_kind s1 = KStruct /\ DataSize (p_size s1) mod 8 = 0) ->
   (p_valid s2 = true -> p_kind s2 = KStruct /\ DataSize (p_size s2) mod 8 = 0) ->
-  den true m1 0 [] s1 v1 -> den true m2 0 [] s2 v2 -> cdom v1 = true -> cdom v2 = true ->
+  den true m1 0 [] s1 v1 -> den true m2 0 [] s2 v2 ->
   nocap v1 = true -> value_eqs v1 v2 = true ->
   canonicalize c fx fuel m1 rl1 s1 = (KOk bs1, r1) -> canonicalize c fx fuel m2 rl2 s2 = (KOk bs2, r2) ->
   bs1 = bs2.
@@ -219,7 +243,7 @@ Print Assumptions C18_canon_m_layout_independent.
 Theorem C18_canon_m_value_preserved : forall fuel c fx m rl s v bs r,
   all_cfixed fx -> cfg_strict c = true -> msg_ok m -> wf_ptr m s ->
   (p_valid s = true -> p_kind s = KStruct /\ DataSize (p_size s) mod 8 = 0) ->
-  den true m 0 [] s v -> good v -> cdom v = true ->
+  den true m 0 [] s v -> good v ->
   canonicalize c fx fuel m rl s = (KOk bs, r) ->
   exists v', cdecode (S (vdepth (norm v))) bs = Some v' /\ value_eqs v' v = true /\ value_eq v' v = true.
 Proof. exact canon_m_value_preserved. Qed.
@@ -229,9 +253,9 @@ Theorem C18_canon_m_idempotent : forall fuel c fx m rl s v bs r m' rl' s' v' bs'
   all_cfixed fx -> cfg_strict c = true -> msg_ok m -> msg_ok m' -> wf_ptr m s -> wf_ptr m' s' ->
   (p_valid s = true -> p_kind s = KStruct /\ DataSize (p_size s) mod 8 = 0) ->
   (p_valid s' = true -> p_kind s' = KStruct /\ DataSize (p_size s') mod 8 = 0) ->
-  den true m 0 [] s v -> nocap v = true -> cdom v = true ->
+  den true m 0 [] s v -> nocap v = true ->
   canonicalize c fx fuel m rl s = (KOk bs, r) ->
-  den true m' 0 [] s' v' -> cdom v' = true -> value_eqs v v' = true ->
+  den true m' 0 [] s' v' -> value_eqs v v' = true ->
   canonicalize c fx fuel m' rl' s' = (KOk bs', r') ->
   bs' = bs.
 Proof. exact canon_m_idempotent. Qed.
